@@ -173,6 +173,11 @@ fn run_check(id: &str, tier: Tier) -> i32 {
             r.parts.push(c16::part_sweep(tier));
             finish(r)
         }
+        "C18" => {
+            let mut r = Report::new("C18", tier, "model_checking");
+            r.parts.push(c01::part_c18(tier));
+            finish(r)
+        }
         "C17" => {
             let mut r = Report::new("C17", tier, "model_checking");
             r.parts.push(c17::part_index(tier));
